@@ -18,7 +18,7 @@ class C01(GProp):
             'captures, scoped combinators; documented argument preconditions respected) x texts over the FULL alphabet (empty, '
             'leading/trailing filtered tokens, rejected chars, tabs, CR/LF/CRLF, 2-4 byte, wide and zero-width chars) x line '
             'endings x tab width 1..16 x sink on/off, every case with fmt=1: the initial lexer, every returned lexer, the returned '
-            'error and every collected error are formatted (Display of the lexer; into_source_error + Display of errors) under '
+            'error and every collected error are formatted (Display and Debug of the lexer; into_source_error + Display of errors) under '
             'catch_unwind; plus random lexer histories; any PANIC in the implementation\'s output is a violation (and must coincide '
             'with an explicit Panic of the model); non-trivial = case whose text has a non-ASCII/tab/line-break char and whose '
             'run produced an error or a recovery; distinct by case')
